@@ -159,15 +159,11 @@ let verdict case impl =
               describe the iterated sequence; get_token_endpoints and the non-precomputed answer
               the same set; only into_replicas_ordered has an order: the ring's (ordered_ok). --- *)
        let spec = spec_replicas dcf rackf g t strat dc in
+       (* extracted predicates: C04_views_ok_sound / C04_precomputed_ok_sound say what they mean,
+          C04_views_ok_model / C04_precomputed_ok_model that the model satisfies them *)
        let views_ok =
-         o_len = List.length o_iter
-         && nodupb o_iter
-         && List.for_all2 (fun k v -> v = List.nth_opt o_iter k) (List.init (List.length o_nth) (fun k -> k)) o_nth
-         && List.length o_choose = o_len
-         && List.for_all (function Some x -> mem x o_iter | None -> false) o_choose
-         && (match o_cf with Some x -> mem x o_iter | None -> true)
-         && (List.length o_ops = List.length seqs && List.for_all2 (fun sq o -> o = list_run sq o_iter) seqs o_ops)
-         && (match o_ep with Some l -> same_set l o_iter || (l = [] && o_iter = []) | None -> true) in
+         views_ok (nat_of_int o_len) o_iter o_nth o_choose o_cf (fun x -> int_of_n x mod 2 = 1)
+           (if List.length o_ops = List.length seqs then List.combine seqs o_ops else [([], [Some N0])]) o_ep in
        (* a token owned by several nodes: the statement does not say in which order they come; the
           placement / ring-order predicates are evaluated for every order of the entries sharing a
           token (at most 24 variants) and fail only if they fail for all of them *)
@@ -191,7 +187,7 @@ let verdict case impl =
        let ordered_okb = match o_ord with
          | Some l -> List.exists (fun g' -> ordered_ok g' t o_iter l) variants
          | None -> false in
-       let pre_ok = same_set o_np o_iter in
+       let pre_ok = precomputed_ok o_np o_iter in
        let place_ok = List.exists (fun g' -> placement_ok (spec_replicas dcf rackf g' t strat dc) o_iter) variants in
        let fails = (if views_ok then [] else ["views"]) @ (if ordered_okb then [] else ["ordered"])
                    @ (if pre_ok then [] else ["precomputed"]) @ (if place_ok then [] else ["placement"]) in
